@@ -74,7 +74,7 @@ ENERGY = bytes([0xC1, 0x21, 0x01, 0x44, 0, 0, 0x12, 0x34, 0, 0, 0, 0, 0, 0, 0, 0
 HUMID = bytes([0xC1, 0x21, 0x01, 0x45, 47, 0, 0, 0])
 
 
-HISTORIES = ["plain", "idle_close", "lifetime", "reapply_after_other", "reapply_after_other_refreshed", "reapply_same"]
+HISTORIES = ["plain", "idle_close", "lifetime", "reapply_after_other", "reapply_after_other_refreshed", "reapply_same", "rejected_reauth", "reauth_with_queued_report"]
 
 
 def scenario(ctx, ver, want, *, extras, cutmode, seed, stale_first, v2_split, rich=False, history="plain"):
@@ -139,6 +139,27 @@ def scenario(ctx, ver, want, *, extras, cutmode, seed, stale_first, v2_split, ri
                 await asyncio.sleep(rng.choice([0, 0.5, 3]))
             elif history == "lifetime":
                 await asyncio.sleep(rng.choice([91, 200]))          # the configured connection lifetime elapses while the client is idle
+            elif history == "rejected_reauth" and ver == 3:
+                # the user tries another token/key pair, the unit rejects it; the connection is lost; the next command goes on with the pair that worked
+                try:
+                    await a.authenticate(bytes(rng.randrange(256) for _ in range(64)), bytes(rng.randrange(256) for _ in range(32)))
+                except Exception:  # noqa: BLE001 - AuthenticationError expected
+                    pass
+                if net.conns and not net.conns[-1]._closing and rng.random() < 0.7:
+                    net.conns[-1].peer_close()
+                await asyncio.sleep(0.5)
+            elif history == "reauth_with_queued_report" and ver == 3:
+                # the unit pushes a state report while the client is idle, then the client authenticates again on the open connection (as it does by
+                # itself when the session key expires)
+                tr = net.conns[-1]
+                ss = dev.sess[tr.cid]
+                ss["ctr"] = (ss["ctr"] + 1) & 0xFFFF
+                tr.feed(landev.v3_enc_packet(ss["key"], landev.v2_wrap(ac.state_frame(ftype=5), devid), ss["ctr"]))
+                await asyncio.sleep(0.2)
+                if rng.random() < 0.5:
+                    await a.authenticate(tok, key)
+                else:
+                    vloop.VClock.offset += 12 * 3600 + 5
             elif history.startswith("reapply"):
                 # A applies the requested state once; then somebody else (another client instance / the remote control) changes the appliance
                 # (or nobody does: reapply_same); A - with or without refreshing - requests the same state again
